@@ -49,7 +49,9 @@ H = [
  ("setPingreqSendInterval", "(c : C) (d : Option Nat)", "setPingreqSendInterval c d", set(), set()),
  ("acquire", "(c : C)", "(acquire c).2", {"pidMan"}, set()),
  ("register", "(c : C) (id : Nat)", "(register c id).2", {"pidMan"}, set()),
- ("releasePacketId", "(c : C) (id : Nat)", "releasePacketId c id", {"pidMan"}, set()),
+ # fix ba1a812: the id also leaves the four wait sets (and the counter, not a FIELD here)
+ ("releasePacketId", "(c : C) (id : Nat)", "releasePacketId c id",
+    {"pidMan", "suback", "unsuback", "puback", "pubrec"}, set()),
  ("eraseStoredPublish", "(c : C) (id : Nat)", "eraseStoredPublish c id",
     {"pidMan", "store", "puback", "pubrec"}, set()),
  ("restoreOne", "(c : C) (p : Pkt)", "restoreOne c p",
